@@ -517,7 +517,12 @@ package cmd
 //@   ensures each: len(tl) == len(ul) ==> forall k :: 0 <= k && k < len(tl) ==> diffOfX(tl[k], ul[k], result0[k], result1[k])
 //@ loop (TimeSeriesList).DiffExcludeSrcNaN#0
 //@   invariant bounds: 0 <= i && i <= len(tl) && len(tl) == len(ul) && len(pl2) == len(tl) && len(ql2) == len(ul) && pl2.arr > old(top) && ql2.arr > old(top) && pl2.arr != ql2.arr
-//@   invariant each: forall k :: 0 <= k && k < i ==> diffOfX(tl[k], ul[k], pl2[k], ql2[k])
+//@   invariant e1: forall k :: 0 <= k && k < i ==> ((tl[k] == nil || ul[k] == nil) && tsLen(tl[k]) == tsLen(ul[k]) ==> len(pl2[k]) == 0 && len(ql2[k]) == 0)
+//@   invariant e2: forall k :: 0 <= k && k < i ==> (tsLen(tl[k]) != tsLen(ul[k]) ==> len(pl2[k]) == tsLen(tl[k]) && len(ql2[k]) == tsLen(ul[k]))
+//@   invariant e3: forall k :: 0 <= k && k < i ==> (tl[k] != nil && ul[k] != nil && len(tl[k].values) == len(ul[k].values) ==> len(pl2[k]) == tsDiffCntX(tl[k], ul[k], len(tl[k].values)) && len(ql2[k]) == len(pl2[k]))
+//@   invariant e4: forall k :: 0 <= k && k < i ==> (tl[k] != nil && ul[k] != nil && len(tl[k].values) == len(ul[k].values) ==>
+//@            (forall j :: 0 <= j && j < len(tl[k].values) && tsDiffersX(tl[k], ul[k], j) ==> 0 <= tsDiffCntX(tl[k], ul[k], j) && tsDiffCntX(tl[k], ul[k], j) < len(pl2[k])
+//@                && pl2[k][tsDiffCntX(tl[k], ul[k], j)].Time == tsTime(tl[k].fromTime, j, tl[k].step)))
 
 //@ spec pairCleanX(a *TimeSeries, b *TimeSeries) bool = tsLen(a) == tsLen(b) && (a == nil || b == nil || tsDiffCntX(a, b, len(a.values)) == 0)
 
